@@ -54,7 +54,8 @@ class C10(Prop):
     assumptions = ["float32 accumulation error is bounded by an explicit tolerance (not proved)",
                    "chunks are pushed with start_index = block index (0 for the first), as compute_stats does",
                    "ChannelStats is constructed with nsamps = number of samples pushed"]
-    regimes_expected = ["push-full", "push-basic", "merge", "constant", "single-sample-chunks", "large-count-merge"]
+    regimes_expected = ["push-full", "push-basic", "merge", "constant", "single-sample-chunks", "large-count-merge", "reader",
+                        "reader-subrange"]
     budget_s = (90, 900)
 
     def corpus(self):
@@ -104,6 +105,20 @@ class C10(Prop):
                 c.pop("chunks", None); c.pop("mode", None)
                 cases.append(c)
         cases += [self._case(rng) for _ in range(250 if tier == "quick" else 3000)]
+        # the accumulator as the readers drive it: compute_stats / compute_stats_basic over a (sub-)range of a real
+        # file, every gulp; the stream is samples [s, s+n) and the chunks are the blocks of the read plan
+        for _ in range(40 if tier == "quick" else 400):
+            c = self._case(rng, rng.choice((3, 5, 8, 13, 40)))
+            T = c["T"]
+            s0 = rng.choice((0, rng.randrange(0, T), rng.randrange(0, T)))
+            n = rng.randint(1, T - s0)
+            g = rng.choice((1, 2, 3, 7, 64))
+            for k in ("split", "chunksA", "chunksB"):
+                c.pop(k, None)
+            gg = min(g, n)
+            c.update(kind="reader", mode=rng.choice(("full", "basic")), s=s0, n=n, g=g,
+                     chunks=[gg] * (n // gg) + ([n % gg] if n % gg else []))
+            cases.append(c)
         return cases
 
     # ------------------------------------------------------------------
@@ -131,6 +146,19 @@ class C10(Prop):
         try:
             if case["kind"] == "push":
                 return self._summ(self._feed(data, case["den"], case["chunks"], case["mode"]))
+            if case["kind"] == "reader":
+                import common
+                import spfiles
+                from sigpyproc.readers import FilReader
+                d = common.tmpdir()
+                x = (data.astype(np.float64) / case["den"]).astype(np.float32)
+                fil = FilReader(str(spfiles.write_fil(d / "s.fil", x, 32)))
+                try:
+                    f = fil.compute_stats if case["mode"] == "full" else fil.compute_stats_basic
+                    f(gulp=case["g"], start=case["s"], nsamps=case["n"])
+                    return self._summ(fil.chan_stats)
+                finally:
+                    fil._file.close()
             sp = case["split"]
             a = self._feed(data[:sp], case["den"], case["chunksA"], "full")
             b = self._feed(data[sp:], case["den"], case["chunksB"], "full")
@@ -139,10 +167,15 @@ class C10(Prop):
             return {"err": exc_name(e)}
 
     # ------------------------------------------------------------------
+    @staticmethod
+    def _stream(case):
+        data = make_data(case)
+        return data[case["s"]:case["s"] + case["n"]] if case["kind"] == "reader" else data
+
     def model_requests(self, case, obs):
         if case.get("big"):
             return []  # too long for a request line; covered by the oracle and by merge_exact
-        data = make_data(case)
+        data = self._stream(case)
         T, C = data.shape
         reqs = []
         for c in range(C):
@@ -153,7 +186,7 @@ class C10(Prop):
                 for n in comp:
                     out.append(str(n)); out += [str(v) for v in col[pos:pos + n]]; pos += n
                 return " ".join(out)
-            if case["kind"] == "push":
+            if case["kind"] in ("push", "reader"):
                 reqs.append(f"C10 push {case['mode']} {case['den']} {chunks_tok(col, case['chunks'])}")
             else:
                 sp = case["split"]
@@ -166,7 +199,7 @@ class C10(Prop):
             return None
         if "err" in obs:
             return f"impl raised {obs['err']}"
-        T = case["T"]
+        T = case["n"] if case["kind"] == "reader" else case["T"]
         basic = case.get("mode") == "basic"
         for c, a in enumerate(answers):
             t = a.split()
@@ -190,7 +223,7 @@ class C10(Prop):
     def oracle(self, case, obs):
         if "err" in obs:
             return f"raised {obs['err']}"
-        data = make_data(case)
+        data = self._stream(case)
         T, C = data.shape
         x = data.astype(np.float64) / case["den"]
         basic = case.get("mode") == "basic"
@@ -235,6 +268,8 @@ class C10(Prop):
             return "constant"
         if case["kind"] == "merge":
             return "merge"
+        if case["kind"] == "reader":
+            return "reader-subrange" if case["s"] > 0 else "reader"
         if case["chunks"] == [1] * case["T"] and case["T"] > 1:
             return "single-sample-chunks"
         return "push-" + case["mode"]
